@@ -39,6 +39,8 @@ def pairs():
     yield "defaultdict factory", collections.defaultdict(list, a=1), collections.defaultdict(int, a=1)
     yield "sharing vs copy", [shared, shared], [shared, list(shared)]
     yield "bytes vs bytearray", b"ab", bytearray(b"ab")
+    yield "bytes vs numpy.bytes_", b"ab", np.bytes_(b"ab")
+    yield "bytes subclass content", np.bytes_(b"ab"), np.bytes_(b"ac")
     yield "str content", "a\x00b", "a b"
     yield "slice", slice(1, 2), slice(1, 2, 1)
     yield "masked mask", np.ma.MaskedArray([1, 2], [True, False]), np.ma.MaskedArray([1, 2], [False, False])
